@@ -32,9 +32,13 @@ import (
 // Read is a cached read by a free goroutine.
 type Read struct {
 	AtMs int    `json:"at"` // -1: issued before the runtime starts (must block until bootstrapped)
-	K    string `json:"k"`  // get list list-label list-id
+	K    string `json:"k"`  // get get-opts list list-label list-id
 	Typ  int    `json:"typ"`
 	ID   int    `json:"id"`
+	// Via 1: the read goes through the reader probe's controller runtime (when it has started) instead of the
+	// runtime's CachedState. "get-opts" is a Get with unmarshal options, which a cached kind may refuse - a refused
+	// read is no observation - but which, when it answers, is a read like any other.
+	Via int `json:"via,omitempty"`
 }
 
 // CtxReq is a ContextWithTeardown request on a cached resource.
@@ -79,9 +83,10 @@ func Gen(t *rapid.T) Plan {
 	p.Reads = rapid.SliceOfN(rapid.Custom(func(t *rapid.T) Read {
 		return Read{
 			AtMs: rapid.SampledFrom([]int{-1, -1, 0, 1, 100, 500, 1000, 1500, 2500, 3500}).Draw(t, "rat"),
-			K:    rapid.SampledFrom([]string{"get", "list", "list", "list-label", "list-id"}).Draw(t, "rk"),
+			K:    rapid.SampledFrom([]string{"get", "get", "get-opts", "list", "list", "list", "list-label", "list-id"}).Draw(t, "rk"),
 			Typ:  rapid.SampledFrom(p.Cached).Draw(t, "rtyp"),
 			ID:   rapid.IntRange(0, 2).Draw(t, "rid"),
+			Via:  rapid.IntRange(0, 1).Draw(t, "rvia"),
 		}
 	}), 1, 12).Draw(t, "reads")
 
@@ -109,6 +114,7 @@ type readRec struct {
 	startTick int64 // global tick taken immediately before the call
 	endTick   int64 // and immediately after it returned
 	matched   int
+	refused   bool // a Get with options the cached kind declined to serve: no observation
 }
 
 type ctxRec struct {
@@ -158,7 +164,7 @@ func filterFor(r Read, all []*model.Res) []*model.Res {
 
 	for _, x := range all {
 		switch r.K {
-		case "get":
+		case "get", "get-opts":
 			if x.ID != ids[r.ID] {
 				continue
 			}
@@ -250,22 +256,47 @@ func runBubble(p Plan) (v hk.Verdict) {
 			kind := resource.NewMetadata("n1", types[r.Typ], "", resource.VersionUndefined)
 
 			var (
-				items []*model.Res
-				err   error
+				items   []*model.Res
+				err     error
+				refused bool
 			)
+
+			// the reader: the runtime's cached state, or the reader probe's view of the runtime
+			type reader interface {
+				Get(context.Context, resource.Pointer, ...state.GetOption) (resource.Resource, error)
+				List(context.Context, resource.Kind, ...state.ListOption) (resource.List, error)
+			}
+
+			var cs reader = cs
+
+			if r.Via == 1 && r.AtMs >= 0 {
+				if rt := probe.Runtime(); rt != nil {
+					cs = rt
+				}
+			}
 
 			start := tick.Add(1)
 
 			switch r.K {
-			case "get":
-				var g resource.Resource
+			case "get", "get-opts":
+				var (
+					g    resource.Resource
+					opts []state.GetOption
+				)
 
-				g, err = cs.Get(w.Ctx, resource.NewMetadata("n1", types[r.Typ], ids[r.ID], resource.VersionUndefined))
+				if r.K == "get-opts" {
+					opts = append(opts, state.WithGetUnmarshalOptions(state.WithSkipProtobufUnmarshal()))
+				}
+
+				g, err = cs.Get(w.Ctx, resource.NewMetadata("n1", types[r.Typ], ids[r.ID], resource.VersionUndefined), opts...)
 
 				switch {
 				case err == nil:
 					items = []*model.Res{model.FromResource(g)}
 				case state.IsNotFoundError(err):
+					err = nil
+				case r.K == "get-opts":
+					refused = true
 					err = nil
 				}
 			default:
@@ -292,6 +323,7 @@ func runBubble(p Plan) (v hk.Verdict) {
 
 			mu.Lock()
 			rec.done, rec.err, rec.items, rec.returned = true, err, items, w.Now()
+			rec.refused = refused
 			rec.startTick, rec.endTick = start, end
 			mu.Unlock()
 		}()
@@ -308,7 +340,7 @@ func runBubble(p Plan) (v hk.Verdict) {
 	// reads issued before the start must still be blocked
 	mu.Lock()
 	for _, rec := range recs {
-		if rec != nil && rec.done {
+		if rec != nil && rec.done && !rec.refused {
 			v.Failf("cached %s of %s issued before the runtime started returned (%v, %v) before the cache was bootstrapped", rec.r.K, types[rec.r.Typ], rec.items, rec.err)
 		}
 	}
@@ -415,12 +447,23 @@ func runBubble(p Plan) (v hk.Verdict) {
 			continue
 		}
 
+		if rec.refused {
+			v.Label("get-with-options-refused")
+
+			continue
+		}
+
+		if rec.r.K == "get-opts" {
+			v.Label("get-with-options-answered")
+		}
+
 		typ := types[rec.r.Typ]
 		lo := preLen
 
-		// monotonicity floor: full lists that returned before this read was issued (real-time order)
+		// monotonicity floor: reads of the kind that returned before this read was issued (real-time order). Their
+		// smallest matching index is a lower bound of the index of the view they saw.
 		for _, prev := range ordered[:oi] {
-			if prev.done && prev.err == nil && prev.r.Typ == rec.r.Typ && prev.r.K == "list" && prev.endTick < rec.startTick && prev.matched > lo {
+			if prev.done && prev.err == nil && !prev.refused && prev.r.Typ == rec.r.Typ && prev.endTick < rec.startTick && prev.matched > lo {
 				lo = prev.matched
 			}
 		}
